@@ -268,6 +268,14 @@ impl Engine {
         }
     }
 
+    fn is_exhausted_map(&self, ai: usize) -> bool {
+        matches!(self.acts[ai].0, Act::Map { frame: 0, flags: 0, parent: 0, sched: 4, .. })
+    }
+
+    fn reached_by_release(&self, st: &State) -> bool {
+        st.hist.last().map_or(false, |&i| matches!(self.acts[i as usize].0, Act::CleanAll | Act::CleanRange { .. }))
+    }
+
     fn op_name(&self, act: &Act) -> String {
         match act {
             Act::Map { page, parent, .. } => format!("{}<{}>", if *parent == 255 { "map_to" } else { "map_to_with_table_flags" }, sz_name(self.al.pages[*page as usize].0)),
@@ -969,6 +977,11 @@ impl Engine {
                         }
                     } else if Some(got.clone()) != exp {
                         v.push(("C02", format!("translate_page<{}>|walk={}|expected={:x?}|got={:x?}", sz_name(sz), sit, exp.clone().map(|e| e.map(|_| "frame")), got.clone().map(|_| "frame")), format!("page {:#x}: {:x?} vs {:x?}", va, got, exp)));
+                        // C01: translate_page is one of the three read interfaces that must agree with the history on which
+                        // frame a mapped page has and on whether a page is mapped at all
+                        if got.is_ok() || matches!(exp, Some(Ok(_))) {
+                            v.push(("C01", format!("translate_page<{}>|{}", sz_name(sz), if matches!(exp, Some(Ok(_))) { "mapped-page-translated-wrongly" } else { "unmapped-page-reported-mapped" }), format!("page {:#x}: {:x?}, history {:x?}", va, got, exp)));
+                        }
                     }
                 }
                 v
@@ -1050,6 +1063,15 @@ impl Engine {
                 for ai in 0..self.acts.len() {
                     let cost = self.acts[ai].1;
                     if !bounds.allows(depth + 1, st.dev + cost) {
+                        // one call beyond the bound, result discarded: a map with an exhausted allocator in a state reached by a
+                        // call that released frames (what was released must be allocated again before it is used again)
+                        if self.is_exhausted_map(ai) && self.reached_by_release(st) && !st.ood {
+                            if dirty {
+                                self.restore(st);
+                            }
+                            let _ = self.step(st, ai, &tree_before);
+                            dirty = true;
+                        }
                         continue;
                     }
                     if dirty {
@@ -1106,6 +1128,15 @@ impl Engine {
             for st in frontier.iter() {
                 self.restore(st);
                 self.check_state(st, false);
+                if self.reached_by_release(st) && !st.ood {
+                    let tree_before = walk_all_mode(sim(), self.skip, st.ood);
+                    for ai in 0..self.acts.len() {
+                        if self.is_exhausted_map(ai) {
+                            self.restore(st);
+                            let _ = self.step(st, ai, &tree_before);
+                        }
+                    }
+                }
             }
         }
         for p in PROPS {
